@@ -16,12 +16,13 @@ func init() {
 			ID: "C21", Title: "Peer input cannot crash the speaker; errors are reported with NOTIFICATION", Level: "other",
 			Technique:   "panic-capable-operation discharge over the framing code, producer/consumer dynamic-type agreement for every unchecked assertion on decoder output in the session layer, error-value discipline (errors.As on wrapped decoder errors, every decoder error carries a BGPError), must-pass-through NOTIFICATION-before-close on go/cfg, error-subcode emitter table",
 			DesignRef:   "DESIGN.md §4 C21",
-			Decided:     "(1) framing: every index/slice in recvMsg whose bound comes from the header length is dominated by MinLen ≤ length ≤ MaxLen (or otherwise discharged); (2) every unchecked type assertion on decoder output reachable from the three msgReceived handlers (path attribute values, capability values, optional parameters, message bodies) asserts exactly the type the decoder stores for every discriminant value that can reach it — the table is derived from the decoder on every run; (3) a decoder error is inspected with errors.As (the decoder wraps its errors), never with a type switch/assertion on the outer error, and every error that leaves packet.Decode is or wraps a BGPError, so a NOTIFICATION code always exists; (4) on the decode-error branch of each handler sendNotification precedes con.Close() and the connection is closed on every path (BMP pseudo sessions exempt); (5) the three header errors of RFC 4271 §6.1 each have an emitter in decodeHeader, and the UPDATE/OPEN body errors map to their message class.",
+			Decided:     "(0) the result of FSM.addressFamily / peer.addressFamily (nil for families that are not configured or not IPv4/IPv6 unicast; the family comes from the peer's OPEN) is dereferenced only behind a nil test (the peer-side result may be covered by the FSM-side test for the same family, given that newFSM creates FSM families only from peer families); (1) framing: every index/slice in recvMsg whose bound comes from the header length is dominated by MinLen ≤ length ≤ MaxLen (or otherwise discharged); (2) every unchecked type assertion on decoder output reachable from the three msgReceived handlers (path attribute values, capability values, optional parameters, message bodies) asserts exactly the type the decoder stores for every discriminant value that can reach it — the table is derived from the decoder on every run; (3) a decoder error is inspected with errors.As (the decoder wraps its errors), never with a type switch/assertion on the outer error, and every error that leaves packet.Decode is or wraps a BGPError, so a NOTIFICATION code always exists; (4) on the decode-error branch of each handler sendNotification precedes con.Close() and the connection is closed on every path (BMP pseudo sessions exempt); (5) the three header errors of RFC 4271 §6.1 each have an emitter in decodeHeader, and the UPDATE/OPEN body errors map to their message class.",
 			NotDecided:  "`does not wedge` / `does not affect other sessions` beyond panic-freedom is behavioural; the exact subcode for each UPDATE-body malformation (the decoder reports them as UPDATE Message Error / unspecific); implicit nil dereferences other than the nilable fields checked in C20/C27.",
 			TrustedBase: stdTrusted,
 		},
 		Run: runC21,
 		Controls: []Control{
+			{Name: "addpath-capability-for-unconfigured-family", File: "protocols/bgp/server/fsm_open_sent.go", Old: "\t\tf := s.fsm.addressFamily(addPathCapTuple.AFI, addPathCapTuple.SAFI)\n\t\tif f == nil {\n\t\t\tcontinue\n\t\t}\n", New: "\t\tf := s.fsm.addressFamily(addPathCapTuple.AFI, addPathCapTuple.SAFI)\n", Expect: "family-lookup-result-guarded"},
 			{Name: "framing-lower-bound-dropped", File: "protocols/bgp/server/fsm.go", Old: "\tif l < packet.MinLen || l > packet.MaxLen {", New: "\tif l > packet.MaxLen {", Expect: "framing-bounds"},
 			{Name: "unknown-attribute-asserts-bytes", File: "protocols/bgp/server/fsm_address_family.go", Old: "\tvalue, ok := attr.Value.([]byte)\n\tif !ok {\n\t\treturn nil\n\t}\n", New: "\tvalue := attr.Value.([]byte)\n", Expect: "union-type-agreement"},
 			{Name: "type-switch-on-wrapped-error", File: "protocols/bgp/server/fsm_open_confirm.go", Old: "\t\tvar bgperr packet.BGPError\n\t\tif errors.As(err, &bgperr) {\n\t\t\ts.fsm.sendNotification(bgperr.ErrorCode, bgperr.ErrorSubCode)\n\t\t}\n", New: "\t\tif bgperr, ok := err.(packet.BGPError); ok {\n\t\t\ts.fsm.sendNotification(bgperr.ErrorCode, bgperr.ErrorSubCode)\n\t\t}\n\t\t_ = errors.As\n", Expect: "error-discipline"},
@@ -73,6 +74,7 @@ func bodyTable(c *core.Ctx) map[string]string {
 }
 
 func runC21(c *core.Ctx) {
+	nilableFamilyGuarded(c, "family-lookup-result-guarded", 6)
 	p := c.P
 	const pkt = "protocols/bgp/packet"
 	// (1) framing ----------------------------------------------------------------------------------
